@@ -38,6 +38,12 @@ def run(tier, seed, rep, replay=None):
             cases.append((d, "valid", "", t["base"] + "/" + d["routing"]["route_algo"]))
             for dd, cls, site in defects.inject(d):
                 cases.append((dd, cls, site, t["base"] + "/" + d["routing"]["route_algo"]))
+        # overlapping address layouts (between endpoints, inside one endpoint, array into a window) and port
+        # clashes: the invalid members of the address and conflict families
+        for d, t in families.address_suite(tier, seed) + families.conflict_suite(tier, seed):
+            if t.get("expect") == "reject":
+                cases.append((d, str(t.get("defect")) + (":" + t["where"] if t.get("where") else ""),
+                              t.get("topo", ""), "family/" + d["routing"]["route_algo"]))
     # every case in-process (same pipeline as floogen.cli.main, fresh Network each); the real command line in a
     # subprocess for all cases (thorough) or for the bases, one case per defect class and a seeded sample (quick)
     inproc = common.run_worker("worker_gen", [{"desc": d} for d, _, _, _ in cases])
